@@ -1051,6 +1051,10 @@ class CurveEngineC03:
                     kw["preprocessing"] = st
                     if o is not None:
                         kw["preprocessing_options"] = o
+                        if rng.random() < 0.35:
+                            # only the options change; the steps stay the
+                            # remembered ones
+                            kw.pop("preprocessing")
                 op = {"op": "fit", "kw": kw}
                 if swarm["faults"] and rng.random() < 0.3:
                     op["fault"] = gen_fault(
@@ -2318,22 +2322,32 @@ class CurveEngineC09:
                     break
                 continue
             from nanite.rate.features import IndentationFeatures
-            with warnings.catch_warnings():
-                warnings.simplefilter("ignore")
-                fbin = np.asarray(IndentationFeatures.compute_features(
-                    fresh, names=ref_rater.names, which_type="binary"))
-                fcon = np.asarray(IndentationFeatures.compute_features(
-                    fresh, names=ref_rater.names,
-                    which_type=["continuous"]))
-                if np.any(fbin == 0):
-                    exp, why = 0.0, "binary criterion failed -> 0"
-                elif not np.all(np.isfinite(fcon)):
-                    exp, why = -1.0, "undefined feature -> -1"
-                else:
-                    exp = float(ref_rater.pipeline.predict(
-                        np.atleast_2d(fcon))[0])
-                    why = "regressor prediction"
-                exp2 = float(ref_rater.rate(datasets=fresh)[0])
+            try:
+                with warnings.catch_warnings():
+                    warnings.simplefilter("ignore")
+                    fbin = np.asarray(IndentationFeatures.compute_features(
+                        fresh, names=ref_rater.names, which_type="binary"))
+                    fcon = np.asarray(IndentationFeatures.compute_features(
+                        fresh, names=ref_rater.names,
+                        which_type=["continuous"]))
+                    if np.any(fbin == 0):
+                        exp, why = 0.0, "binary criterion failed -> 0"
+                    elif not np.all(np.isfinite(fcon)):
+                        exp, why = -1.0, "undefined feature -> -1"
+                    else:
+                        exp = float(ref_rater.pipeline.predict(
+                            np.atleast_2d(fcon))[0])
+                        why = "regressor prediction"
+                    exp2 = float(ref_rater.rate(datasets=fresh)[0])
+            except _caught() as e:
+                # the live object answered; the same state on a fresh object
+                # must be ratable as well ("total")
+                violation = make_violation(
+                    self.prop, "Q1", f"fresh-raises:{type(e).__name__}",
+                    feats, f"rate_quality returned {val} but features / "
+                    f"standalone rating of a freshly rebuilt curve in the "
+                    f"same state raise {type(e).__name__}: {e}", i)
+                break
             probes[why] += 1
             if fitted:
                 probes["rated with a successful current fit"] += 1
